@@ -124,7 +124,7 @@ func newSentinel(nonce uint64) *sentinel {
 	s := &sentinel{dir: dir, secret: fmt.Sprintf("SECRET-%016x", nonce)}
 	os.WriteFile(filepath.Join(dir, "secret.txt"), []byte(s.secret+"\nline2\n"), 0o644)
 	os.Mkdir(filepath.Join(dir, "sub"), 0o755)
-	os.WriteFile(filepath.Join(dir, "script.lua"), []byte(fmt.Sprintf("local f = io.open(%q, \"w\") if f then f:write(\"x\") f:close() end return %q\n", filepath.Join(dir, "executed"), s.secret)), 0o644)
+	os.WriteFile(filepath.Join(dir, "smod.lua"), []byte(fmt.Sprintf("local f = io.open(%q, \"w\") if f then f:write(\"x\") f:close() end return %q\n", filepath.Join(dir, "executed"), s.secret)), 0o644)
 	s.snap = s.snapshot()
 	return s
 }
@@ -217,13 +217,13 @@ func runFlags(ctx *core.RunCtx) {
 			var v rt.Value
 			switch g.Weighted(5, 3, 2, 2, 2, 1, 1, 1, 1) {
 			case 0:
-				p := []string{"secret.txt", "newfile.txt", "sub", "script.lua", "sub/new", "executed"}[g.Choose(6)]
+				p := []string{"secret.txt", "newfile.txt", "sub", "smod.lua", "sub/new", "executed"}[g.Choose(6)]
 				v = rt.StringValue(filepath.Join(sen.dir, p))
 			case 1:
 				cmds := []string{"touch %s/cmd-ran", "cat %s/secret.txt", "rm -f %s/secret.txt", "echo x > %s/secret.txt"}
 				v = rt.StringValue(fmt.Sprintf(cmds[g.Choose(len(cmds))], sen.dir))
 			case 2:
-				v = rt.StringValue([]string{"r", "w", "a", "r+", "script", "a", "*a", "n", "l"}[g.Choose(9)])
+				v = rt.StringValue([]string{"r", "w", "a", "r+", "smod", "a", "*a", "n", "l"}[g.Choose(9)])
 			case 3:
 				v = rt.IntValue([]int64{0, 1, -1, 2, 3}[g.Choose(5)]) // no huge sizes: unlimited contexts here
 			case 4:
@@ -321,7 +321,7 @@ func runFlags(ctx *core.RunCtx) {
 			os.MkdirAll(sen.dir, 0o755)
 			os.WriteFile(filepath.Join(sen.dir, "secret.txt"), []byte(sen.secret+"\nline2\n"), 0o644)
 			os.Mkdir(filepath.Join(sen.dir, "sub"), 0o755)
-			os.WriteFile(filepath.Join(sen.dir, "script.lua"), []byte("return 1\n"), 0o644)
+			os.WriteFile(filepath.Join(sen.dir, "smod.lua"), []byte("return 1\n"), 0o644)
 			sen.snap = sen.snapshot()
 		}
 	}
@@ -370,7 +370,7 @@ func runFlags(ctx *core.RunCtx) {
 				os.MkdirAll(sen.dir, 0o755)
 				os.WriteFile(filepath.Join(sen.dir, "secret.txt"), []byte(sen.secret+"\nline2\n"), 0o644)
 				os.Mkdir(filepath.Join(sen.dir, "sub"), 0o755)
-				os.WriteFile(filepath.Join(sen.dir, "script.lua"), []byte("return 1\n"), 0o644)
+				os.WriteFile(filepath.Join(sen.dir, "smod.lua"), []byte("return 1\n"), 0o644)
 				sen.snap = sen.snapshot()
 			}
 			if bits&^declared != 0 {
